@@ -407,6 +407,11 @@ def finish(prop, level, tier, seed, t0, cases, results, rule, assumptions, alpha
     known = load_known()
     new, by, fmeta = classify(prop, viols, known)
     paths = []
+    vd = os.path.join(os.environ.get("XMC_OUT", os.path.join(VERIF, "out")), "violations", prop)
+    if os.path.isdir(vd):  # artefacts of an earlier run of this check are stale
+        for fn_ in os.listdir(vd):
+            if fn_.endswith(".json"):
+                os.remove(os.path.join(vd, fn_))
     for n, v in enumerate(new[:MAX_ARTEFACTS]):
         case = cases[v["case_idx"]] if 0 <= v["case_idx"] < len(cases) else None
         paths.append(write_violation(prop, n, case, v))
